@@ -358,6 +358,16 @@ func (e *Explorer) runPath(m *Machine, q queued) {
 			case pathEnd:
 				outcome = x.kind
 				msg = x.msg
+				if x.kind == "budget" || x.kind == "depth" {
+					// possibly a genuine non-terminating loop / unbounded recursion: let the
+					// native replay decide (it must hang or overflow to count)
+					if m.ensureModelQuiet() {
+						m.reportViolation("hang", "terminates", firstLine(x.msg), m.path.model)
+						v := m.path.viol[len(m.path.viol)-1]
+						v.Stack = x.msg
+						v.Site = siteFromStack(x.msg)
+					}
+				}
 				switch x.kind {
 				case "deadlock", "spin":
 					if m.ensureModelQuiet() {
